@@ -126,6 +126,11 @@ def fmt(itp, val, spec, conv):
     return one(val)
 
 
+class NpzModel(dict):
+    """what numpy.load returns for an .npz archive: a mapping (member name -> array) that also lists its members (.files) and can be closed / used as a context manager"""
+    is_npz = True
+
+
 class Machine:
     """one interpretation of the driver on a model environment"""
     def __init__(self, repo, fs, fail_cases=(), pathos=True, raise_in_worker=False, postprocess=False):
@@ -180,7 +185,8 @@ class Machine:
         self.executed.append(key)
         if key in self.fail_cases:
             raise RaiseSignal(ast.Raise(exc=ast.Call(func=ast.Name(id='RuntimeError', ctx=ast.Load()), args=[], keywords=[]), cause=None), 'RuntimeError(stub study function)')
-        return {'value': X.atom('study_result[' + ','.join(fmt(None, a, '', -1) for a in key) + ']')}
+        tag_ = ','.join(fmt(None, a, '', -1) for a in key)
+        return {'value': X.atom('study_result[' + tag_ + ']'), 'k2': X.atom('study_love[' + tag_ + ']', 'complex')}         # a real and a complex number (a Love number)
 
     def postprocess_stub(self, directory, results, *args, **kwargs):
         self.postprocessed += 1
@@ -371,7 +377,10 @@ class Machine:
                     raise RaiseSignal(ast.Raise(exc=ast.Name(id='FileNotFoundError', ctx=ast.Load()), cause=None), f'FileNotFoundError({p})')
                 if not isinstance(c, tuple) or c[0] == 'npz-incomplete':
                     raise RaiseSignal(ast.Raise(exc=ast.Name(id='BadZipFile', ctx=ast.Load()), cause=None), f'BadZipFile({p}): truncated result file')
-                return dict(c[1]) if c[0] == 'npz' else c[1]
+                if c[0] == 'npz':
+                    z = NpzModel(c[1])
+                    return z
+                return c[1]
             if base == 'logspace':
                 lo, hi, n = args[0], args[1], args[2]
                 pts = I.Interp.builtin(itp, 'linspace', [lo, hi, n], {}, e, fr)
